@@ -59,12 +59,39 @@ class Analysis:
         out = []
         if fk and fk in self.db.functions:
             out.append(self.db.functions[fk])
+        # std::make_shared<T>(args...) / make_unique<T>(args...) construct T(args...)
+        if call.get('k') == 'call' and T.short(call.get('fn', '')) in ('make_shared', 'make_unique') and \
+                call.get('fn', '').startswith('std::'):
+            nargs = len(call.get('args', []))
+            for c in self._ctors_for_make(call):
+                if len(c['params']) == nargs or (len(c['params']) > nargs and
+                                                 all('def' in p for p in c['params'][nargs:])):
+                    out.append(c)
         if call.get('virt'):
             m = T.short(call.get('fn', ''))
             for f in self.db.functions.values():
                 if f.get('virtual') and T.short(f['name']) == m and f['key'] != fk:
                     out.append(f)
         return out
+
+    def _ctors_for_make(self, call):
+        cls = call.get('_mk')
+        if not cls:
+            return []
+        if not hasattr(self, '_ctx_ctors'):
+            self._ctx_ctors = [f for f in self.db.functions.values()
+                               if f.get('kind') == 'ctor' and ctx_params(self.db, f)]
+        return [c for c in self._ctx_ctors if c['cls'] == cls]
+
+    def _annotate_make(self, fns):
+        for f in fns:
+            for b in f['blocks']:
+                for ev in b['ev']:
+                    for x in T.walk(ev):
+                        if x.get('k') == 'call' and x.get('fn') in ('std::make_shared', 'std::make_unique') \
+                                and '_mk' not in x:
+                            ta = self.db.T(f, x).get('targs') or ['']
+                            x['_mk'] = ta[0]
 
     def ctx_args(self, fn, call):
         """[(ctx string, callee param index)] for arguments passed at ctx-typed
@@ -281,6 +308,7 @@ class Analysis:
     def run(self):
         fns = [f for f in self.db.functions.values() if self.relevant(f)]
         self.fns = fns
+        self._annotate_make(fns)
         for it in range(12):
             changed = False
             for f in fns:
@@ -378,17 +406,40 @@ def rule1(chk, db, cfgname):
         if r['open_ctx'] and not escal:
             for cstr, bad in r['open_ctx'].items():
                 sites = r['info'].get(cstr, [])
+                chain = origin_chain(an, f, cstr)
                 chk.violation('C15.1', f, 'ctx=%s' % cstr,
                               'normal return reachable with cancellation obligation %s '
-                              '(skippable work: %s) and no Error::Cancelled produced' %
+                              '(skippable work: %s) and no Error::Cancelled produced; obligation originates in: %s' %
                               ('/'.join(bad), ', '.join('%s@%s' % (w, l) for l, w in sites[:6]) or
-                               'silent return on the cancelled branch'),
-                              cfg=cfgname)
+                               'silent return on the cancelled branch', ' -> '.join(chain)),
+                              cfg=cfgname, path=chain)
     chk.count('c15.1.skippable_calls', nskip)
     chk.count('c15.1.functions', len(fns))
     chk.count('c15.1.may_skip_functions', sum(1 for v in an.may_skip.values() if v))
     rule1b(chk, db, an, cfgname)
     return an
+
+
+def origin_chain(an, f, cstr, depth=0, seen=None):
+    """follow the open obligation down the MaySkip callees to the function where it is created and
+    never tested"""
+    seen = seen or set()
+    name = '%s:%s' % (T.basename(f['name']), f['line'])
+    if depth > 12 or f['key'] in seen:
+        return [name]
+    seen.add(f['key'])
+    r = an.results.get(f['key']) or {}
+    own = an.own_ctx_names(f)
+    for b in f['blocks']:
+        for ev in b['ev']:
+            if ev.get('k') not in ('call', 'ctor'):
+                continue
+            for c in an.callees(ev):
+                if an.may_skip.get(c['key']) and c.get('blocks'):
+                    rc = an.results.get(c['key']) or {}
+                    for c2 in rc.get('open_ctx', {}):
+                        return [name] + origin_chain(an, c, c2, depth + 1, seen)
+    return [name]
 
 
 def rule1b(chk, db, an, cfgname):
@@ -1032,6 +1083,28 @@ def rule5(chk, db, an, cfgname):
         loops = g.in_loop()
         ok_frames = any(writes(ev) and writes(ev) != 'this->cache_' and 'op_node' in writes(ev) and x in loops
                         for x in region for ev in g.blocks[x]['ev'])
+        # a frame whose node already has a result must keep it ("already evaluated operands are
+        # untouched"): each such write is control-dependent on the same cache_ being null
+        dom = g.dominators()
+        for x in region:
+            for ev in g.blocks[x]['ev']:
+                w = writes(ev)
+                if not w or w == 'this->cache_':
+                    continue
+                guarded = False
+                for d in dom.get(x, ()):
+                    if d == x or d not in region:
+                        continue
+                    cond, _ = C.branch_cond(g.blocks[d])
+                    if cond is not None and w in T.pstr(cond):
+                        guarded = True
+                chk.obligation(guarded, {'function': f['name'], 'line': ev.get('ln'), 'write': w,
+                                         'only when still null': guarded})
+                if not guarded:
+                    chk.violation('C15.5', f, 'overwrites %s' % w.replace('->', '.'),
+                                  'the cancel branch assigns %s without testing that it is still null: an '
+                                  'operand that was already evaluated is replaced by a Cancelled leaf' % w,
+                                  line=ev.get('ln'), cfg=cfgname)
         rets_ok = True
         chk.obligation(ok_this, {'function': f['name'], 'line': blk['term']['ln'], 'this->cache_ poisoned': ok_this})
         chk.obligation(ok_frames, {'function': f['name'], 'line': blk['term']['ln'],
